@@ -26,9 +26,10 @@ VARIABLES mem, kids, pg, reg, fnode, flink, fpg, held, mode, last,
           dirty,   \* data slots left half-written by a failed operation (node without values, not linked yet)
           fopt,    \* per stored node: are the optional scalar attributes present (a foreign writer may omit them)
           saved,   \* save_as was used (at most once per behaviour)
-          w2, w2pg \* a second workspace (always open r+), target of cross-workspace copies: stored entities / property groups
-vw   == <<mem, kids, pg, reg, fnode, flink, fpg, held, mode, dirty, fopt, saved, w2, w2pg>>
-vars == <<mem, kids, pg, reg, fnode, flink, fpg, held, mode, dirty, fopt, saved, w2, w2pg, last>>
+          w2, w2pg, \* a second workspace (always open r+), target of cross-workspace copies: stored entities / property groups
+          inord    \* per container: is its in-memory children list known to be in ascending slot order (see InordUpdate)
+vw   == <<mem, kids, pg, reg, fnode, flink, fpg, held, mode, dirty, fopt, saved, w2, w2pg, inord>>
+vars == <<mem, kids, pg, reg, fnode, flink, fpg, held, mode, dirty, fopt, saved, w2, w2pg, inord, last>>
 Aux  == <<dirty, fopt, saved, w2, w2pg>>
 
 Root == 0
@@ -124,6 +125,7 @@ Init ==
     /\ saved = FALSE
     /\ w2 = [y \in W2E |-> NoW2]
     /\ w2pg = [q \in W2P |-> NoPG]
+    /\ inord = [c \in Cont |-> TRUE]
     /\ last = [act |-> "Init", args |-> [x |-> 0], out |-> "ok", foot |-> {}]
 
 \* ======================= creation
@@ -390,7 +392,7 @@ LookupDead(s) ==
 \* Detached descendants keep their _parent pointer (they pin their ancestors, not conversely).
 RemoveViaWorkspace(s) ==
     /\ Do("RemoveViaWorkspace") /\ Writable /\ s \in Att \cap ES /\ Sub(s) \cap dirty = {}
-    /\ \A x \in Sub(s) \ {s} : mem[x].flag              \* protected descendants: outside the model
+    /\ \A x \in Sub(s) \ {s} : mem[x].flag              \* protected descendants: RemoveBlocked
     /\ IF ~mem[s].flag
        THEN /\ Refused("RemoveViaWorkspace", [s |-> s], "UserWarning")
             /\ UNCHANGED <<mem, kids, pg, reg, fnode, flink, fpg, held, mode, Aux>>
@@ -408,6 +410,50 @@ RemoveViaWorkspace(s) ==
             /\ AfterGC(mem, k1, g1, reg, dy)
             /\ Ok("RemoveViaWorkspace", [s |-> s], D \cup {par})
             /\ UNCHANGED <<mode, Aux>>
+
+\* remove_entity(s) where s may be deleted but something below it may not (workspace.py:618-674).  As built the call
+\* is NOT all-or-nothing: remove_recursively walks the children lists in order and removes, completely, every child
+\* subtree that comes before the first protected entity it meets; then the UserWarning of that entity propagates and
+\* everything else (s itself included) stays.  RemOut(x) = <<entities removed by remove_entity(x), did it complete>>;
+\* children are visited in list order, which the model knows only where inord holds.
+RECURSIVE RemOut(_), RemKids(_)
+RemKids(rest) ==
+    IF rest = {} THEN <<{}, TRUE>>
+    ELSE LET c == Lowest(rest)
+             r == RemOut(c) IN
+         IF r[2] THEN LET q == RemKids(rest \ {c}) IN <<r[1] \cup q[1], q[2]>>
+         ELSE <<r[1], FALSE>>
+RemOut(x) ==
+    IF ~mem[x].flag THEN <<{}, FALSE>>
+    ELSE LET q == RemKids(IF x \in Cont THEN kids[x] ELSE {}) IN
+         IF q[2] THEN <<q[1] \cup {x}, TRUE>> ELSE <<q[1], FALSE>>
+
+RemoveBlocked(s) ==
+    /\ Do("RemoveBlocked") /\ Writable /\ s \in Att \cap (GS \cup OS) /\ Sub(s) \cap dirty = {}
+    /\ mem[s].flag /\ \E x \in Sub(s) \ {s} : ~mem[x].flag
+    /\ \A c \in Sub(s) \cap Cont : inord[c]
+    /\ LET D == RemOut(s)[1] IN
+       \* property groups sit in the children list of their object too (object_base.py:70-94): the model leaves out
+       \* objects with property groups that are entered but not removed (their fate depends on that interleaving)
+       /\ \A o \in (Sub(s) \cap OS) \ D : mem[o].flag => PGsOf(o) = {}
+       /\ LET k1 == [c \in Cont |-> IF c \in D THEN {} ELSE kids[c] \ D]
+              g1 == Scrub(DropOwners(pg, D), D \cap DS)
+              \* every completed nested remove_entity ends with gc.collect()
+              dy == IF D = {} THEN {} ELSE {x \in ES : Live(x) /\ x \notin PinnedG(k1, mem, held)}
+          IN
+          /\ fnode' = [x \in ES |-> IF x \in D THEN NoNode ELSE fnode[x]]
+          /\ flink' = {l \in flink : l[1] \notin D /\ l[2] \notin D}
+          /\ fpg' = Scrub(DropOwners(fpg, D), D \cap DS)
+          /\ AfterGC(mem, k1, g1, reg, dy)
+          /\ last' = [act |-> "RemoveBlocked", args |-> [s |-> s, gone |-> D], out |-> "UserWarning",
+                      foot |-> D \cup {mem[x].par : x \in D}]
+    /\ UNCHANGED <<held, mode, Aux>>
+
+\* Workspace.open() on a workspace that is already open warns and returns the workspace as it is (workspace.py:1183-1190)
+OpenAgain ==
+    /\ Do("OpenAgain") /\ mode # "closed"
+    /\ Ok("OpenAgain", [m |-> mode], {})
+    /\ UNCHANGED <<mem, kids, pg, reg, fnode, flink, fpg, held, mode, Aux>>
 
 \* EntityContainer.remove_children / ObjectBase.remove_children (entity_container.py:222-240,
 \* object_base.py:497-523) -> Workspace.remove_children -> H5Writer.remove_child: unlink only.
@@ -611,7 +657,19 @@ CallClosed(op) ==
     /\ UNCHANGED <<mem, kids, pg, reg, fnode, flink, fpg, held, mode, Aux>>
 
 \* ======================= next-state relation
-Next ==
+\* children lists are appended to on attach and filtered on detach (entity_container.py, object_base.py); a re-load
+\* lists children in the order of the HDF5 link names (identifiers), which the model does not know
+InordUpdate ==
+    LET reloaded == last'.act \in {"Open", "SaveAs"} \/ (last'.act = "Helper" /\ last'.args.reopened) IN
+    inord' = [c \in Cont |->
+                IF Cardinality(kids'[c]) <= 1 THEN TRUE
+                ELSE IF reloaded THEN FALSE
+                ELSE IF kids'[c] \subseteq kids[c] THEN inord[c]
+                ELSE IF kids[c] \subseteq kids'[c] /\ Cardinality(kids'[c] \ kids[c]) = 1
+                     THEN inord[c] /\ \A x \in kids'[c] \ kids[c], y \in kids[c] : y < x
+                ELSE FALSE]
+
+Step ==
     \/ \E p \in Cont, n \in Names : CreateGroup(p, n) \/ CreateObject(p, n)
     \/ \E o \in OS, n \in Names, v \in Vals : AddData(o, n, v)
     \/ \E o \in OS : AddVisual(o)
@@ -641,7 +699,10 @@ Next ==
     \/ \E h \in Hows : Close(h)
     \/ \E m \in {"r+", "r"} : Open(m)
     \/ \E op \in ClosedOps : CallClosed(op)
+    \/ \E s \in GS \cup OS : RemoveBlocked(s)
+    \/ OpenAgain
 
+Next == Step /\ InordUpdate
 Spec == Init /\ [][Next]_vars
 DepthBound == TLCGet("level") <= MaxDepth
 
